@@ -178,11 +178,11 @@ fn gen_plan(rng: &mut Rng, profile: &str, len: usize, miri: bool) -> Vec<PlanOp>
     let total: u32 = w.iter().map(|e| e.1).sum();
     let mut plan = Vec::with_capacity(len + 4);
     // warm start so that histories have live handles to work with
-    plan.push(op(F::OpenArchive, HSel::Null, [rng.next_u32() % 7, 1, 0, 0]));
+    plan.push(op(F::OpenArchive, HSel::Null, [rng.next_u32() % NFIX, 1, 0, 0]));
     if profile == "mutable-heavy" {
         plan.push(op(F::CreateArchive2, HSel::Null, [0, rng.next_u32() % 2, 1, rng.next_u32()]));
     } else {
-        plan.push(op(F::OpenArchive, HSel::Null, [rng.next_u32() % 7, 1, 0, 0]));
+        plan.push(op(F::OpenArchive, HSel::Null, [rng.next_u32() % NFIX, 1, 0, 0]));
     }
     plan.push(op(F::OpenFileEx, HSel::Live(rng.next_u32() % 4), [rng.next_u32() % 8, 1, 0, 0]));
     while plan.len() < len + 3 {
@@ -295,6 +295,23 @@ struct St<'a> {
     invalid_calls: u64,
     poisoned: bool,
     path_names: HashMap<String, Vec<String>>,
+    /// SFileCloseArchive is called while every write to a regular file fails (soft RLIMIT_FSIZE of one byte)
+    fault_close: bool,
+}
+
+/// Run `f` while every write that would make a regular file longer than `limit` bytes fails with EFBIG (soft RLIMIT_FSIZE,
+/// SIGXFSZ ignored); the previous limit is restored afterwards. Nothing but the call under test may run inside.
+fn with_fsize_limit<T>(limit: u64, f: impl FnOnce() -> T) -> T {
+    unsafe {
+        libc::signal(libc::SIGXFSZ, libc::SIG_IGN);
+        let mut old = libc::rlimit { rlim_cur: 0, rlim_max: 0 };
+        libc::getrlimit(libc::RLIMIT_FSIZE, &mut old);
+        let new = libc::rlimit { rlim_cur: limit, rlim_max: old.rlim_max };
+        libc::setrlimit(libc::RLIMIT_FSIZE, &new);
+        let r = f();
+        libc::setrlimit(libc::RLIMIT_FSIZE, &old);
+        r
+    }
 }
 
 fn cs(s: &str) -> CString {
@@ -386,6 +403,7 @@ impl<'a> St<'a> {
             invalid_calls: 0,
             poisoned: false,
             path_names,
+            fault_close: false,
         }
     }
 
@@ -650,7 +668,7 @@ impl<'a> St<'a> {
 
 impl<'a> St<'a> {
     fn open_path_pool(&self, k: u32, prefer_fixture: bool) -> String {
-        let fx: Vec<&str> = if self.miri { vec![FX_D, FX_E] } else { vec![FX_A, FX_B, FX_C, FX_D, FX_E, FX_F, FX_S] };
+        let fx: Vec<&str> = if self.miri { vec![FX_D, FX_E] } else { vec![FX_A, FX_B, FX_C, FX_D, FX_E, FX_F, FX_S, FX_U] };
         if prefer_fixture {
             return p2s(&self.dir.join(fx[k as usize % fx.len()]));
         }
@@ -827,16 +845,29 @@ impl<'a> St<'a> {
         let id = self.resolve(p.h, Want::Arch);
         let (valid, label, at) = self.classify(id, Want::Arch);
         self.begin("SFileCloseArchive", label);
-        let ok = SFileCloseArchive(h(id));
-        self.end("SFileCloseArchive", label, format!("(h={id}[{label}])->{ok}"), ok);
+        let ok = if self.fault_close { with_fsize_limit(1, || SFileCloseArchive(h(id))) } else { SFileCloseArchive(h(id)) };
+        self.end("SFileCloseArchive", label, format!("(h={id}[{label}]{})->{ok}", if self.fault_close { ",WRITES FAIL" } else { "" }), ok);
         if !valid {
             self.judge_invalid("SFileCloseArchive", label, ok, true);
             return;
         }
         let ai = at.unwrap().1;
-        if !ok {
+        if !ok && self.fault_close {
+            // a close that could not write may report failure - and then either keeps the archive open as a whole (its handle
+            // and all handles below it stay valid) or has closed it (from here on the model treats it as closed: its file and
+            // search handles must be gone with it)
+            let cn = cs("(listfile)");
+            let has = unsafe { SFileHasFile(h(id), cn.as_ptr()) };
+            if has || SFileGetLastError() != 6 {
+                self.c.count("faulty_close_refused_archive_kept_open", 1);
+                return;
+            }
+            self.c.count("faulty_close_reported_failure_and_closed_the_archive", 1);
+        } else if !ok {
             self.viol("live-handle-rejected", "SFileCloseArchive", label, "returned-failure", format!("SFileCloseArchive failed on live archive handle {id}"));
             return;
+        } else if self.fault_close {
+            self.c.count("faulty_close_reported_success", 1);
         }
         self.live_ok += 1;
         self.archs[ai].gone = Gone::Own;
@@ -2001,7 +2032,7 @@ fn run_history(c: &mut Case, idx: u64, plan: &[PlanOp], exact: bool, miri: bool,
 
 // ------------------------------------------------------------------ scripted probes ----
 
-const NPROBE: u64 = 17;
+const NPROBE: u64 = 18;
 
 fn probe_plan(k: u64) -> (&'static str, Vec<PlanOp>) {
     let z = [0u32; 4];
@@ -2072,14 +2103,14 @@ fn probe_plan(k: u64) -> (&'static str, Vec<PlanOp>) {
             }
             ("every-function-x-forged-handles", v)
         }
-        10 => ("enumerate-every-fixture", (0..7).flat_map(|i| vec![op(F::OpenArchive, HSel::Null, [i, 1, 0, 0]), op(F::EnumAll, HSel::Live(i), z), op(F::EnumFiles, HSel::Live(i), [1, 2, 0, 0]), op(F::EnumFiles, HSel::Live(i), [0, 1, 0, 0])]).collect()),
+        10 => ("enumerate-every-fixture", (0..NFIX).flat_map(|i| vec![op(F::OpenArchive, HSel::Null, [i, 1, 0, 0]), op(F::EnumAll, HSel::Live(i), z), op(F::EnumFiles, HSel::Live(i), [1, 2, 0, 0]), op(F::EnumFiles, HSel::Live(i), [0, 1, 0, 0])]).collect()),
         11 => ("long-name-through-every-name-buffer", vec![open_a, op(F::OpenFileEx, HSel::Live(0), [8, 1, 0, 0]), op(F::GetFileName, HSel::Live(0), [1, 0, 0, 0]), op(F::ReadFile, HSel::Live(0), [6, 1, 0, 0]), op(F::HasFile, HSel::Live(0), [13, 1, 0, 0]), op(F::FindFirstFile, HSel::Live(0), [22, 1, 0, 0]), op(F::EnumAll, HSel::Live(0), z)]),
         13 => ("hasfile-after-compact-and-remove-on-mutable", vec![mk_mut, op(F::AddFileEx, HSel::Live(0), [0, 2, 1, 0x0001_0600]), op(F::CompactArchive, HSel::Live(0), z), op(F::HasFile, HSel::Live(0), [0, 1, 0, 0]), op(F::RemoveFile, HSel::Live(0), [0, 0, 1, 0x0001_0000]), op(F::HasFile, HSel::Live(0), [11, 1, 0, 0]), op(F::OpenFileEx, HSel::Live(0), [11, 2, 1, 0])]),
         14 => {
             // every fixture x every listed name x every mask shape x every position of the name (front positions 0..=24 and
             // the last six), each as FindFirst + FindNext to exhaustion + FindClose, judged against the glob model
-            let mut v: Vec<PlanOp> = (0..7).map(|i| op(F::OpenArchive, HSel::Null, [i, 1, 0, 0])).collect();
-            for (i, fx) in fixture_table().iter().enumerate() {
+            let mut v: Vec<PlanOp> = (0..NFIX).map(|i| op(F::OpenArchive, HSel::Null, [i, 1, 0, 0])).collect();
+            for (i, fx) in fixture_table().iter().enumerate().filter(|(_, fx)| fx.names.iter().all(|n| n.is_ascii())) {
                 for j in 0..fx.names.len() as u32 {
                     for kind in 0..MASK_KINDS {
                         for ps in 0..31 {
@@ -2161,6 +2192,29 @@ fn special_probe(c: &mut Case, k: u64, idx: u64, exact: bool, fixtures: &std::pa
                     Some(true) => st.c.count("adds_until_full", 1),
                 }
             }
+        }
+        17 => {
+            // a mutable archive with flushed members, open file and search handles and one unflushed addition is closed while
+            // no write can succeed (after C19-r6m2): however the close answers, the archive's file and search handles
+            // live exactly as long as the archive handle does
+            let z = [0u32; 4];
+            st.do_create_archive2(op(F::CreateArchive2, HSel::Null, [0, 0, 1, 0]));
+            if st.archs.is_empty() {
+                st.c.inconclusive("could not create the archive");
+                return false;
+            }
+            st.do_modify(op(F::AddFileEx, HSel::Live(0), [0, 3, 1, 0x0001_0600]), false);
+            st.do_modify(op(F::AddFileEx, HSel::Live(0), [0, 2, 1, 0x0001_0600]), false);
+            st.do_modify(op(F::FlushArchive, HSel::Live(0), z), false);
+            st.do_open_file(op(F::OpenFileEx, HSel::Live(0), [0, 1, 0, 0]));
+            st.do_open_file(op(F::OpenFileEx, HSel::Live(0), [1, 1, 0, 0]));
+            st.do_find_first(op(F::FindFirstFile, HSel::Live(0), [1, 1, 0, 0]), false);
+            st.do_read(op(F::ReadFile, HSel::Live(0), [3, 1, 0, 0]));
+            st.do_modify(op(F::AddFileEx, HSel::Live(0), [0, 4, 1, 0x0001_0600]), false);
+            st.fault_close = true;
+            st.do_close_archive(op(F::CloseArchive, HSel::Live(0), z));
+            st.fault_close = false;
+            st.c.count("closes_under_write_failure", 1);
         }
         3 => {
             // a directory where an archive file name is expected (Archive::open scans for a header up to the
@@ -2301,6 +2355,7 @@ fn main() {
                     1 => "fill-hash-table-through-adds",
                     4 => "pkware-member-added-reopened-opened",
                     12 => "open-archive-on-a-directory",
+                    17 => "close-mutable-archive-while-writes-fail",
                     _ => "",
                 };
                 if pname.is_empty() || miri {
